@@ -25,7 +25,7 @@
 (*              dvar : 0 (Default not derived) | index of default variant] *)
 (* Clone and Debug are always derived.                                     *)
 (***************************************************************************)
-EXTENDS DxCmp
+EXTENDS DxCmp, DxRun
 
 LS(n) == ToString(n)
 B2I(b) == IF b THEN 1 ELSE 0
@@ -91,6 +91,14 @@ LDebug(L, x) ==
              THEN vr.name \o " { " \o LJoin([j \in 1..n |-> "f" \o LS(j - 1) \o ": " \o WLeaf(x.f[j])], 1) \o " }"
              ELSE vr.name \o "(" \o LJoin([j \in 1..n |-> WLeaf(x.f[j])], 1) \o ")"
 
+\* {:#?}: DxRun.RenderAlt over the leaves' own alternate renderings, joined with line feeds
+WLeafAlt(fv) == <<"W(", "    " \o LS(fv.val) \o ",", "    " \o LS(fv.tag) \o ",", ")">>
+RECURSIVE JoinNL(_, _)
+JoinNL(lines, i) == IF i > Len(lines) THEN "" ELSE (IF i > 1 THEN "\n" ELSE "") \o lines[i] \o JoinNL(lines, i + 1)
+LDebugAlt(L, x) ==
+    LET vr == L.variants[x.v]
+    IN  JoinNL(RenderAlt(vr.name, vr.shape = "named", [j \in DOMAIN x.f |-> [name |-> "f" \o LS(j - 1), alt |-> WLeafAlt(x.f[j])]]), 1)
+
 (***************************************************************************)
 (* Actions.  One uniform record shape so that histories are sequences of   *)
 (* one type:  act, d (destination), a, b (operands / sources), op, lr, rr  *)
@@ -100,11 +108,11 @@ Act(act, d, a, b, op, lr, rr, vi, vals) ==
     [act |-> act, d |-> d, a |-> a, b |-> b, op |-> op, lr |-> lr, rr |-> rr, vi |-> vi, vals |-> vals]
 
 Mutators  == {"set", "default", "clone", "clone_from", "bin", "assign", "un", "deref_write"}
-Observers == {"eq", "pcmp", "cmp", "hash", "debug", "deref_read"}
+Observers == {"eq", "pcmp", "cmp", "hash", "debug", "debug_alt", "deref_read"}
 
 \* is the action part of the API of this item?
 Offered(L, x) ==
-    CASE x.act \in {"set", "clone", "clone_from", "debug"} -> TRUE
+    CASE x.act \in {"set", "clone", "clone_from", "debug", "debug_alt"} -> TRUE
       [] x.act = "default"     -> L.dvar > 0
       [] x.act \in {"bin", "assign", "un"} -> L.ops
       [] x.act \in {"deref_write", "deref_read"} -> L.deref
@@ -134,6 +142,7 @@ Result(L, pool, x) ==
           [] x.act = "cmp"   -> CmpO(O, L.mode, "Ord", Vals(pool[x.a]), Vals(pool[x.b]))
           [] x.act = "hash"  -> HashFeedO(O, L.mode, Vals(pool[x.a]))
           [] x.act = "debug" -> LDebug(L, pool[x.a])
+          [] x.act = "debug_alt" -> LDebugAlt(L, pool[x.a])
           [] x.act = "deref_read" -> WLeaf(pool[x.a].f[1])
           [] OTHER           -> 0
 
